@@ -36,6 +36,8 @@
        model (like the code) converts/promotes the whole storage exactly when the written range
        does not wrap the END OF PHYSICAL STORAGE - a function of the pointer, so no pointer-free
        specification exists for them (see writerange_scalar_spec in RingProofs.v).
+   [writerange_spec_is_writes] is a sanity theorem about the specification alone: its range write is
+   the sequence of its single-observation writes.
    Not covered: operations that raise (shape mismatch, align out of range, len > N, dtype mismatch
    in scatter), operations on uninitialised storage other than the first push.
    No axioms. *)
@@ -574,6 +576,60 @@ Proof.
   destruct (run_refines ops s' t0 Hwf' Habs' Hrect' Hval) as (_ & H2 & H3).
   cbn [Ring.run]. rewrite Hstep. destruct (run s' ops) as [sf outs]. cbn [fst snd map erase] in *.
   split; [exact H2|]. rewrite H3. reflexivity.
+Qed.
+
+(* ================================================================== a range write is a sequence of writes *)
+(* sanity of the specification itself (no model involved): the pointwise formula used for
+   OpWriteRangeS is the same list as writing the columns of the range one at a time with the
+   single-observation write of the specification, oldest column first at age off', the next one
+   at age off' - 1, and so on *)
+Lemma pos_hit n (off : Z) k len : 0 < n -> k < n -> len < n ->
+  (k = pos n (off - Z.of_nat len) <-> pos n (off - Z.of_nat k) = len).
+Proof.
+  intros Hn Hk Hlen.
+  pose proof (pos_Z n (off - Z.of_nat len) Hn) as H1. pose proof (pos_Z n (off - Z.of_nat k) Hn) as H2.
+  pose proof (mod_sub_cong cast zeroA off (Z.of_nat k) (off - Z.of_nat len) (Z.of_nat n) ltac:(lia)) as Hc.
+  replace (off - (off - Z.of_nat len))%Z with (Z.of_nat len) in Hc by lia.
+  rewrite (Z.mod_small (Z.of_nat len)) in Hc by lia. rewrite (Z.mod_small (Z.of_nat k)) in Hc by lia.
+  split; intros H.
+  - apply Nat2Z.inj. rewrite H2. apply Hc. rewrite <- H1. lia.
+  - apply Nat2Z.inj. rewrite H1. apply Hc. rewrite <- H2. lia.
+Qed.
+Lemma fold_writes_length {X} (f : nat -> nat) (g : nat -> X) js : forall l,
+  length (fold_left (fun h j => upd h (f j) (g j)) js l) = length l.
+Proof. induction js as [|j js IH]; intros l; cbn [fold_left]; [reflexivity|]. rewrite IH. apply upd_length. Qed.
+Lemma fold_writes_nth {X} (dflt : X) n (off : Z) (g : nat -> X) len l k :
+  0 < n -> length l = n -> len <= n -> k < n ->
+  nth k (fold_left (fun h j => upd h (pos n (off - Z.of_nat j)) (g j)) (seq 0 len) l) dflt
+  = if pos n (off - Z.of_nat k) <? len then g (pos n (off - Z.of_nat k)) else nth k l dflt.
+Proof.
+  intros Hn Hl Hlen Hk. induction len as [|len IH].
+  - cbn [seq fold_left]. destruct (Nat.ltb_spec (pos n (off - Z.of_nat k)) 0); [lia|reflexivity].
+  - rewrite seq_S, fold_left_app. cbn [fold_left Nat.add].
+    rewrite nth_upd_lt by (rewrite fold_writes_length, Hl; apply pos_lt; exact Hn).
+    rewrite IH by lia. pose proof (pos_hit n off k len Hn Hk ltac:(lia)) as Hiff.
+    destruct (Nat.eqb_spec k (pos n (off - Z.of_nat len))) as [E|E].
+    + apply Hiff in E. rewrite E. destruct (Nat.ltb_spec len (S len)); [reflexivity|lia].
+    + assert (pos n (off - Z.of_nat k) <> len) by (intros Hc; apply E, Hiff, Hc).
+      destruct (Nat.ltb_spec (pos n (off - Z.of_nat k)) len);
+        destruct (Nat.ltb_spec (pos n (off - Z.of_nat k)) (S len)); try lia; reflexivity.
+Qed.
+
+Theorem writerange_spec_is_writes t r off fwd ip :
+  0 < sN t -> length (sh t) = sN t -> range_len r <= sN t ->
+  sh (fst (spec_step t (OpWriteRangeS r off fwd ip))) =
+  fold_left (fun h j =>
+               sh (fst (spec_step (with_sh t h)
+                          (OpWrite (mkObs (sd t) (ssh t) (col zeroA (rcols r) j))
+                                   (first_off off (range_len r) fwd - Z.of_nat j) ip))))
+            (seq 0 (range_len r)) (sh t).
+Proof.
+  intros Hn Hl Hlen. cbn [spec_step fst with_sh sN sd ssh sh oel]. symmetry.
+  apply tab_ext with (d := []).
+  - rewrite fold_writes_length. exact Hl.
+  - intros k Hk.
+    apply (fold_writes_nth [] (sN t) (first_off off (range_len r) fwd)
+             (fun j => map (cast (sd t)) (col zeroA (rcols r) j)) (range_len r) (sh t) k Hn Hl Hlen Hk).
 Qed.
 
 End Spec.
